@@ -254,11 +254,12 @@ Proof. vm_compute. repeat split; reflexivity. Qed.
 (* LOOP BODIES IN GENERAL (Lang/LoopModProofs.v, inside the judgement `gjudge` of Props/C01.v): a body statement may be a flat
    operation indexed by the loop variable (above) or any library gate, under any stack of inv / pow(k), with closed parameter
    expressions, on registers, literal slices, literal bits or bits indexed by the loop variable; each iteration emits what the
-   statement unrolls to at that value.  One loop statement, unroll mode: *)
+   statement unrolls to at that value; a body statement may also be a call of a defined gate (`hcall`: the call's operands may be
+   indexed by the loop variable, the body of the definition is instantiated as at the top level).  One loop statement, unroll mode: *)
 Theorem C08_loop_with_general_body_unrolls_iteration_by_iteration f env G s stm out evs :
-  Top env s -> gates s = G -> gloop_ok env G stm = Some (out, evs) ->
-  exists s', visit_stmt false [] (S (S f)) stm s = Ok (out, s') /\ DE s s' /\ Dstep s s' evs.
-Proof. exact (gloop_fix f env G s stm out evs). Qed.
+  (Nat.pred gate_nesting <= S f)%nat -> Top env s -> gates s = G -> gstack s = [] -> gloop_ok hcall env G stm = Some (out, evs) ->
+  exists s', visit_stmt false [] (S (S (S f))) stm s = Ok (out, s') /\ DE s s' /\ Dstep s s' evs.
+Proof. exact (gloop_fix hcall (Nat.pred gate_nesting) hcall_fix f env G s stm out evs). Qed.
 Print Assumptions C08_loop_with_general_body_unrolls_iteration_by_iteration.
 
 Example C08_general_loop_example :
